@@ -184,6 +184,26 @@ def jobs(tier, seed, prop):
                            pre_unwindset={r'GridWavelet_%s' % nm: npmax + 2, r'tsg_\w+': npmax + 2}, timeout=300,
                            functions=["%s:%d %s" % (f["file"], f["line"], f["name"])], info=info, replay=make_replay(prop) if prop == "C12" else replay_rows(prop),
                            bounded="points <= %d, dimensions <= 2 (loops unwound; the frame obligations do not depend on the sizes)" % npmax,
-                           assumed=["callee contracts (evalIntegral, evalBasis, evalDiffBasis pure; invertTransposed writes its argument only; buildInterpolationMatrix assigns the cached matrix and makes it fit the working set) are assumed, not enforced"],
+                           assumed=["callee contracts (invertTransposed writes its argument only; buildInterpolationMatrix assigns the cached matrix and makes it fit the working set) are assumed, not enforced; the frames of evalIntegral, evalBasis, evalDiffBasis are enforced by the jobs wavelet.eval.* of C12"],
                            label=label))
+    if prop == "C12":
+        out += eval_jobs()
+    return out
+
+def eval_jobs():
+    """The evaluators that the weight queries above call through contracts, themselves under contract: frame enforced by dfcc."""
+    cf = ContractFile("contracts/wavelet_eval.c")
+    R = X.Rules()
+    t, info = wavelet.emit_eval(R, cf.contracts())
+    pre = '#include "tsg_shim.h"\nint tsg_exc;\n#line 1 "/verif/contracts/wavelet_eval.c"\n' + cf.text(("text", "stub")) + t
+    stubs = ["RuleWavelet_eval0", "RuleWavelet_eval1", "RuleWavelet_getWeight"]
+    out = []
+    for f in info["functions"]:
+        nm = f["name"].split("::")[1]
+        out.append(Job("wavelet.eval." + nm, pre + cf.text(("harness",), ["h_" + nm]), "h_" + nm, enforce="GridWavelet_" + nm, replace=stubs,
+                       pre_unwindset={r'GridWavelet_%s' % nm: 4, r'tsg_\w+': 4}, timeout=300,
+                       functions=["%s:%d %s" % (f["file"], f["line"], f["name"])], info=info,
+                       bounded="dimensions <= 2 (loops unwound; the frame obligations do not depend on the sizes)",
+                       assumed=["RuleWavelet::eval<mode> and RuleWavelet::getWeight are pure (const member functions of a class without mutable members: see wavelet.static_frame); assumed, not enforced"],
+                       label="GridWavelet::%s %s (assigns clause enforced by dfcc)" % (nm, "writes only its output array" if nm == "evalDiffBasis" else "writes nothing")))
     return out
